@@ -233,8 +233,14 @@ func (c *Ctx) Zero(t types.Type) string {
 	panic("Zero: unsupported " + t.String())
 }
 
+// constArray: a constant array. cvc5 only accepts constant arrays of *values*; for element sorts
+// without literals (Ref, datatypes) an uninterpreted array constant is used instead -- cells outside
+// the length / domain of a slice or map are never read, so their content is irrelevant.
 func (c *Ctx) constArray(ks, vs, v string) string {
-	return fmt.Sprintf("((as const (Array %s %s)) %s)", ks, vs, v)
+	if vs == "Bool" || vs == "Int" || vs == "Real" || vs == "String" {
+		return fmt.Sprintf("((as const (Array %s %s)) %s)", ks, vs, v)
+	}
+	return c.Const("emptyarr:"+sortToken(ks)+">"+sortToken(vs), fmt.Sprintf("(Array %s %s)", ks, vs))
 }
 
 // typeInvariant returns facts that hold for every value of the type (lengths non-negative,
